@@ -210,25 +210,25 @@ class C09(Check):
                   suppress_health_check=list(HealthCheck), report_multiple_bugs=False)
         @given(st.integers(0, 4), st.data())
         def prop(which, data):
-            if runner.time_left() < 0:
-                res.truncated = True
-                return
             mode = 'bytes' if which == 0 else 'text'
             g = data.draw(gens.core_grammar(nrules=5, depth=4, mode=mode))
             if any('backtrack' == x[0] for r in g.rules for e in peg.rule_exprs(r) for x in peg.walk(e)):
                 return
             if mode == 'text':
                 g = g.copy(ignores=[(None, ('rx', '[ \\n]+'))], ignore_pos=data.draw(st.integers(0, 5)))
+            tl = data.draw(st.lists(texts(), min_size=12, max_size=12))
+            if mode == 'bytes':
+                tl = [t.encode('utf-8') for t in tl]
+            positions = [data.draw(st.integers(0, max(0, len(t)))) for t in tl]
+            if runner.over_budget(res):
+                return
             desc = peg.render(g)
             mod, err = sut.compile_grammar(desc)
             if mod is None:
                 res.mismatch({'g': peg.g_to_dict(g), 'text': '', 'pos': 0, 'why': 'compile'})
                 return
-            tl = data.draw(st.lists(texts(), min_size=12, max_size=12))
-            for t in tl:
-                if mode == 'bytes':
-                    t = t.encode('utf-8')
-                for pos in (0, data.draw(st.integers(0, max(0, len(t))))):
+            for t, p2 in zip(tl, positions):
+                for pos in (0, p2):
                     kind, exc = run_one(mod, t, pos)
                     res.evals += 1
                     res.hist['out_%s' % kind] += 1
@@ -257,7 +257,10 @@ class C09(Check):
                                             'position': list(p)})
                     if bad:
                         res.mismatch({'g': peg.g_to_dict(g), 'text': t, 'pos': pos})
-        prop()
+        try:
+            prop()
+        except runner.StopTask:
+            pass
 
     def replay(self, case):
         if 'sweep' in case:
